@@ -26,7 +26,19 @@ RULE = ("case kinds: gen (gen_from_u64 of one integer range on a list of adversa
         "preserved, equals the model's shuffle, generator state afterwards equal); shufraw (the trait's shuffle driven by a "
         "replayed raw stream: every draw vector for slices <= 6 (quick) / <= 8 (thorough), adversarial words); shufall (all n! draw vectors, also offset by multiples of i+1, produce every permutation exactly once, "
         "n <= 7 quick / 8 thorough); permstat "
-        "(permutation frequencies over consecutive seeds). non-trivial = distinct in-domain case that is not a gen line of a "
+        "(permutation frequencies over consecutive seeds; `permstat:<elt>[-d|-w]`: the same on slices of [u64;16], String, Box, tuple, u8 elements "
+        "and through the other receivers); multi (1-3 generators `LinearCongruentialGenerator64<A, C>` - `Rng` in 3/4 of the lines, "
+        "else one of 7 other const-parameter pairs incl. <1,1>, <0,0>, <MAX,MAX> - from equal/boundary/random seeds, alive together and used "
+        "interleaved for up to 64 operations: draws (next_raw, next(range) of all 10 types x 5 forms, next(f64 range), shuffle of 0..4000 elements of 7 "
+        "element types incl. String, 128-byte arrays, zero-sized, Box) through three receivers (method syntax on the concrete type, generic "
+        "`R: Rand` code, a forwarding wrapper whose shuffle is the trait's default body); copies of a generator by 34 routes (bit copies: let, "
+        "deref, Cell::get, by value, copied(); Clone::clone: .clone(), UFCS, generic T: Clone, to_owned, Option/tuple/array/Box/Rc/Rc::make_mut/"
+        "Arc::unwrap_or_clone/Cow/RefCell/Vec/vec![x; n]/resize/iter::repeat/cloned(), derived Clone of a struct / enum / nested struct holding "
+        "a generator; Clone::clone_from into a fresh and into a used generator, derived clone_from of a holder), assignment into a USED generator "
+        "by 6 routes (=, clone_from, = clone(), mem::replace, mem::swap, UFCS clone_from), whole-vector copies by 9 routes (Vec::clone, to_vec, "
+        "iter().cloned(), extend_from_slice, Box<[_]>::clone, Vec::clone_from into a used vector, copied(), Vec of holders, arrays), re-seeding "
+        "from a drawn word, new generators from an already used seed; each kind of copy is forced at least 4 times per run; after a copy the "
+        "original and the copy are both drawn from; every line ends with next_raw on every live generator). non-trivial = distinct in-domain case that is not a gen line of a "
         "range with fewer than two values")
 ASSUMPTIONS = [
     "the Lean model of rlib_rand is hand-written; it is tied to the code by running both on the same cases",
@@ -39,6 +51,12 @@ ASSUMPTIONS = [
     "theorems float_range_in / float_range_in_binary64 are about exact rationals with a (concrete RNE-53, subnormals) rounding and no overflow, "
     "float_range_lt_end about any arithmetic",
     "the integer types are exactly the five make_randomable!(..) pairs (pinned by extract; another invocation or impl = broken correspondence)",
+    "multi lines: the implementation's view is computed by an independent oracle inside the harness - for every draw, a FRESH generator "
+    "made by from_seed(the seed of that generator's lineage) and only ever bit-copied replays, through generic R: Rand code, all draw "
+    "operations the lineage has seen and must then observe the same value (the oracle replays operations, it does not count words, so a "
+    "shuffle that legitimately consumes another number of words is not reported); plus in-range / permutation per draw. The model side is "
+    "Multi.run (a generator is its state; every kind of copy copies the state), proved equal to the lineage specification Multi.specRun for "
+    "every history (multi_run_eq_spec). Which Rust entry point made a copy (<kind>) and which receiver made a draw (<recv>) mean nothing to the model",
     "STATISTICS ARE TESTED, NOT PROVED: permutation frequencies of shuffle (chi-square, reachability) and absence of short periods of "
     "next(0..m) are properties of one concrete PRNG; they are measured by `e_rand stat` and by permstat/period cases",
 ]
@@ -49,7 +67,10 @@ MANIFEST = {
              "checked +/-, asserts as panics): int_range_in / int_range_onto / int_range_empty for all five range forms, every width >= 1 "
              "(onto: <= 64), both signednesses and every raw word, full range included; seed_determinism (stream = scramble of the iterated "
              "LCG step, copies evolve equally - definitional in a pure model: the evidence for the determinism clause is the `stream` "
-             "differential, equal seeds / Copy clones); mix_bijective (xor-shift and odd multiplication mod 2^64 are inverted explicitly); "
+             "differential, equal seeds / Copy clones, and the `multi` differential for copies made through Clone::clone / clone_from / containers / "
+             "derived Clone); multi_run_eq_spec (any number of live generators used interleaved, copied, assigned into one another and re-seeded "
+             "from drawn words: every operation returns the words that the generator's lineage (seed, words consumed) prescribes), "
+             "copy_and_original_agree, assigned_copy_agrees; mix_bijective (xor-shift and odd multiplication mod 2^64 are inverted explicitly); "
              "lcg_full_period (Hull-Dobell for modulus 2^64) hence every 64-bit word is output exactly once per period; "
              "lcg_state_low_bits_periodic (why the raw state must not be returned); shuffle_perm for every draw stream and slice; "
              "shuffle_onto (every permutation is produced by in-range draws); float_range_lt_end for any arithmetic and float_range_in for "
